@@ -47,7 +47,11 @@ Inductive case :=
 | CCall (t : table) (noglob : bool) (ci : callin) (chosen : option url) (bv : option bview) (cv : cview)
 (* the calls of one proxy as a history, with table changes and real cleanup ticks:
    connections begun / ended at each backend after every step *)
-| CSession (steps : list sstep) (obs : list (list cnt)).
+| CSession (steps : list sstep) (obs : list (list cnt))
+(* one unary call through a server built by the real newGrpcProxy with limits [rx]/[tx]:
+   request of [req] bytes, scripted response of [resp] bytes; did the backend receive the
+   request byte for byte, did the caller receive the response byte for byte, status code *)
+| CLimit (rx tx req resp : N) (backend_got caller_got : bool) (code : N).
 
 (* ---- CPool ---- *)
 Fixpoint pool_same (st : list url * pstate) (ops : list pop) (obs : list pobs) : bool :=
@@ -198,6 +202,14 @@ Definition check_case (c : case) : N :=
                   | _, _, _ => false
                   end in
       verdict same spec None (match chosen with Some _ => true | None => negb (match t with [] => true | _ => false end) end)
+  | CLimit rx tx req resp bg cg code =>
+      let m := relay_sized rx tx req resp in
+      let same := Bool.eqb bg (sz_backend_got m) && Bool.eqb cg (sz_caller_got m) && (code =? sz_code m) in
+      let spec := Bool.eqb bg (req <=? rx)
+                  && Bool.eqb cg ((req <=? rx) && (resp <=? tx) && (resp <=? rx))
+                  && Bool.eqb (code =? 0) cg in
+      let between := fun x => ((N.min rx tx <? x) && (x <=? N.max rx tx)) in
+      verdict same spec None (negb (rx =? tx) && (between req || between resp))
   | CSession steps obs =>
       let same := sess_same ([], p_init) steps obs in
       let spec := match obs with
